@@ -227,7 +227,7 @@ func nonLocalWrites(f *core.Func) []ast.Node {
 	var out []ast.Node
 	localFresh := func(v *types.Var) bool {
 		// declared inside this function body (not a parameter, not captured)
-		return v.Pos() >= f.Body.Pos() && v.Pos() < f.Body.End()
+		return core.DeclaredIn(info, f.Body, v)
 	}
 	escapes := func(e ast.Expr) bool {
 		sawDeref := false
